@@ -182,6 +182,14 @@ func c05Pool(unitIDs map[string]uint64) []c05Val {
 		c05Val{coq: "VDate " + zlist(2020), env: &dtpb.Date{ValueUs: 1577876400000000, Precision: dtpb.Date_YEAR, Timezone: "-11:00"}, kind: "FHIR.date/-11:00"},
 		c05Val{coq: "VDateTime " + zlist(2020, 1, 1), env: &dtpb.DateTime{ValueUs: 1577817000000000, Precision: dtpb.DateTime_DAY, Timezone: "+05:30"}, kind: "FHIR.dateTime/day+05:30"},
 		c05Val{coq: "VDateTime " + zlist(2020, 1), env: &dtpb.DateTime{ValueUs: 1577876400000000, Precision: dtpb.DateTime_MONTH, Timezone: "-11:00"}, kind: "FHIR.dateTime/month-11:00"})
+	// date elements built from an instant (fhir.Date(t) with the precision lowered): what lies below the precision is
+	// not part of the value -- 2020-01-17T13:45Z as a day, a month, a year
+	add(c05Val{coq: "VDate " + zlist(2020, 1, 17), env: &dtpb.Date{ValueUs: 1579268700000000, Precision: dtpb.Date_DAY, Timezone: "Z"}, kind: "FHIR.date/hidden"},
+		c05Val{coq: "VDate " + zlist(2020, 1), env: &dtpb.Date{ValueUs: 1579268700000000, Precision: dtpb.Date_MONTH, Timezone: "UTC"}, kind: "FHIR.date/hidden"},
+		c05Val{coq: "VDate " + zlist(2020), env: &dtpb.Date{ValueUs: 1579268700000000, Precision: dtpb.Date_YEAR, Timezone: "+05:30"}, kind: "FHIR.date/hidden"},
+		c05Val{coq: "VDateTime " + zlist(2020, 1), env: &dtpb.DateTime{ValueUs: 1579268700000000, Precision: dtpb.DateTime_MONTH, Timezone: "Z"}, kind: "FHIR.dateTime/hidden"},
+		c05Val{coq: "VDateTime " + zlist(2020), env: &dtpb.DateTime{ValueUs: 1579268700000000, Precision: dtpb.DateTime_YEAR, Timezone: "-11:00"}, kind: "FHIR.dateTime/hidden"},
+		c05Val{coq: "VDateTime " + zlist(2020, 1, 17), env: &dtpb.DateTime{ValueUs: 1579268700000000, Precision: dtpb.DateTime_DAY, Timezone: "Z"}, kind: "FHIR.dateTime/hidden"})
 	// dateTimes: every precision x offsets
 	for prec := 0; prec <= 6; prec++ {
 		offs := []string{""}
@@ -215,14 +223,14 @@ func c05Pool(unitIDs map[string]uint64) []c05Val {
 		c05Val{coq: "VDateTime " + zlist(2020, 1, 1, 10, 30, 15250000000), env: &dtpb.Instant{ValueUs: base + 250000, Precision: dtpb.Instant_MILLISECOND, Timezone: "+05:30"}, kind: "FHIR.instant/ms"},
 		c05Val{coq: "VDateTime " + zlist(2020, 1, 1, 10, 30, 15000400000), env: &dtpb.Instant{ValueUs: base + 400, Precision: dtpb.Instant_MICROSECOND, Timezone: "Z"}, kind: "FHIR.instant/us"})
 	// quantities
-	for _, q := range []struct{ num, unit string }{{"1", "mg"}, {"1.0", "mg"}, {"2", "mg"}, {"1", "kg"}, {"1", "1"}, {"5", "day"}, {"5", "days"}, {"0.5", "mg"}} {
+	for _, q := range []struct{ num, unit string }{{"1", "mg"}, {"1.0", "mg"}, {"2", "mg"}, {"1", "kg"}, {"1", "1"}, {"5", "day"}, {"5", "days"}, {"0.5", "mg"}, {"1", "hour"}, {"2", "hours"}, {"60", "minutes"}, {"90", "minutes"}, {"3600", "seconds"}, {"1.5", "hours"}, {"1", "minute"}, {"60000", "milliseconds"}, {"1", "week"}, {"7", "days"}, {"1", "year"}, {"12", "months"}} {
 		o := decOperand(q.num, "sysvar")
 		if !strings.Contains(q.num, ".") {
 			o = decOperand(q.num+".", "sysvar")
 			o.coq = "NDec " + coqZs(q.num) + " 0%Z"
 		}
 		lit := q.num + " '" + q.unit + "'"
-		if q.unit == "day" || q.unit == "days" {
+		if calendarUnit[q.unit] {
 			lit = q.num + " " + q.unit
 		}
 		add(c05Val{coq: strings.Replace(o.coq, "NDec", "VQty", 1) + " " + coqN(unit(q.unit)), lit: lit, kind: "Quantity"})
@@ -366,3 +374,6 @@ func runC05(cfg config) {
 	}
 	sink.finish("all ordered pairs of a value pool (Boolean, String incl. non-ASCII, Integer boundaries, Decimal scale variants, every Date/DateTime/Time precision x {no offset, Z, +05:30, -11:00}, Quantities with equal/different/calendar units, FHIR primitive elements of every kind, complex elements) x operators (quick: every pair with at least two operators, same-kind pairs always with `=`; thorough: all six), empty operands, and collections of length 1..4 equal / differing at one position / at the last position / in length; temporal components are computed by the harness with Go's time package, independently of the library", false)
 }
+
+var calendarUnit = map[string]bool{"day": true, "days": true, "hour": true, "hours": true, "minute": true, "minutes": true, "second": true, "seconds": true, "millisecond": true, "milliseconds": true,
+	"week": true, "weeks": true, "month": true, "months": true, "year": true, "years": true}
